@@ -291,7 +291,21 @@ func (e *env) apply(l L) (errText string) {
 		}
 		defer t.Close()
 		c := base.Clone()
-		for _, o := range batchOps(l.Batch, base) {
+		ops := batchOps(l.Batch, base)
+		if l.Type == "io" {
+			// IO trees hold different data than state trees; "addshared" deliberately creates a
+			// leaf identical to one of the state tree (cross-type node sharing by hash).
+			if l.Batch == "addshared" {
+				ops = [][2][]byte{{dbKeys[0], []byte("a")}}
+			} else {
+				for i := range ops {
+					if ops[i][1] != nil {
+						ops[i][1] = []byte("io")
+					}
+				}
+			}
+		}
+		for _, o := range ops {
 			if o[1] == nil {
 				if err := t.Remove(kv.Ctx, o[0]); err != nil {
 					return fmt.Sprintf("%s: remove failed: %v", l, err)
